@@ -27,7 +27,7 @@ def parseOkList (s : String) : Option (List Bytes) :=
   (s.splitOn ",").mapM hexDecode
 
 /-- judge for the resolver observations; returns failure reasons. -/
-def judgeId (s : Bytes) (tid tids pwm : String) : List String := Id.run do
+def judgeId (s : Bytes) (tid tids pwm vld : String) : List String := Id.run do
   let supplied := (splitOn 124 s).map (fun p => p.takeWhile (· != 58))
   let mut bad : List String := []
   let tidOk : Option Bytes := if tid.startsWith "ok:" then hexDecode (tid.drop 3).toString else none
@@ -56,6 +56,8 @@ def judgeId (s : Bytes) (tid tids pwm : String) : List String := Id.run do
       if some t != tidOk then bad := "pwm-tenant-differs" :: bad
       if m.length > 64 then bad := "pwm-meta-too-long" :: bad
     | _ => bad := "pwm-unparsable" :: bad
+  -- the validator itself, on the raw string: whatever it accepts is safe
+  if vld.startsWith "ok:" ∧ !safeID s then bad := "vld-accepts-unsafe" :: bad
   return bad
 
 def handleId (f : List String) : String × String × String :=
@@ -70,7 +72,7 @@ def handleId (f : List String) : String × String × String :=
       let mVld := showRes (fun _ => "") (validTenantID s)
       let model := [mTid, mTids, mPwm, mVld]
       let diff := if model == [tid, tids, pwm, vld] then "-" else "model=" ++ " ".intercalate model
-      let j := judgeId s tid tids pwm
+      let j := judgeId s tid tids pwm vld
       let judge := if j.isEmpty then "-" else ",".intercalate j
       let nparts := (splitOn 124 s).length
       let tags := s!"tid={(tid.take 6).toString} parts={min nparts 4} meta={s.contains 58}"
@@ -81,8 +83,8 @@ def handleId (f : List String) : String × String × String :=
 context already holds that identifier. -/
 def parseHop (s0 : String) : Option Hop :=
   let (s, recv?) : String × Option Ctx := match s0.splitOn "!" with
-    | [a, r] => (a, (hexDecode r).map some)
-    | _ => (s0, some none)
+    | [a, r] => (a, (hexDecode r).map fun x => [(CKey.org, x)])
+    | _ => (s0, some [])
   match recv? with
   | none => none
   | some recv =>
@@ -92,31 +94,68 @@ def parseHop (s0 : String) : Option Hop :=
     else if s.startsWith "g:" then (parseOkList (s.drop 2).toString).map (fun l => Hop.grpc (some l) recv)
     else none
 
+/-- judge side, written from the property text on the hop SYNTAX (never calls the model): does the
+carrier of this hop hold a value that conflicts with identifier `ids` (hex; `-` = empty)? An HTTP
+header cannot carry an empty identifier. -/
+def hopConflicts (ids : String) (h0 : String) : Bool :=
+  let h := (h0.splitOn "!").headD h0
+  if h.startsWith "h:" then
+    let ex := (h.drop 2).toString
+    ids == "-" || !(ex == "-" || ex == ids)
+  else
+    !(h == "g:none" || h == "g:" ++ ids)
+
 def handleChain (f : List String) : String × String × String :=
   match f with
   | [ids, hops, obs] =>
-    let c? : Option Ctx := if ids == "none" then some none else (hexDecode ids).map some
-    let hs? := if hops == "-" then some [] else (hops.splitOn " ").mapM parseHop
+    let c? : Option Ctx := if ids == "none" then some [] else (hexDecode ids).map fun x => [(CKey.org, x)]
+    let hopStrs := if hops == "-" then [] else hops.splitOn " "
+    let hs? := hopStrs.mapM parseHop
     match c?, hs? with
     | some c, some hs =>
       let m := match chain c hs 0 with
-        | .ok none => "ok:none"
-        | .ok (some x) => "ok:" ++ hexEncode x
+        | .ok c' => (match extractOrgID c' with | .ok x => "ok:" ++ hexEncode x | .error _ => "ok:none")
         | .error (e, i) => s!"err:{e.name}@{i}"
       let diff := if m == obs then "-" else "model=" ++ m
-      -- judge: arrives unchanged or fails; a context without an id never yields one
-      let judge :=
-        if obs.startsWith "ok:" then
-          (if (obs.drop 3).toString == ids then "-" else "id-changed-in-transit")
-        else "-"
-      let judge := if ids == "none" ∧ !hs.isEmpty ∧ obs.startsWith "ok:" then "default-id-invented" else judge
-      (diff, judge, s!"hops={min hs.length 5} res={(obs.take 3).toString} stale={hops.contains '!'}")
+      -- judge. The identifier ARRIVES unchanged: a success must deliver it; a failure is only
+      -- acceptable at or after the first hop whose carrier holds a conflicting value. A context
+      -- without an identifier never yields one, and an empty header is "without one".
+      let firstConflict := hopStrs.findIdx? (hopConflicts ids)
+      let errIdx : Option Nat := if obs.startsWith "err:" then ((obs.splitOn "@").getLast?.bind String.toNat?) else none
+      let bad : List String :=
+        (if ids != "none" ∧ obs.startsWith "ok:" ∧ (obs.drop 3).toString != ids then ["id-changed-in-transit"] else []) ++
+        (if ids == "none" ∧ !hs.isEmpty ∧ obs.startsWith "ok:" then ["default-id-invented"] else []) ++
+        (if ids == "-" ∧ obs.startsWith "ok:" ∧ hopStrs.any (·.startsWith "h:") then ["request-without-id-accepted-over-http"] else []) ++
+        (if ids != "none" ∧ obs.startsWith "err:" then
+          match errIdx, firstConflict with
+          | some i, some p => if i < p then ["id-lost-on-clean-hop"] else []
+          | some _, none => ["id-lost-on-clean-hop"]
+          | none, _ => ["unparsable-failure"]
+         else []) ++
+        (if !(obs.startsWith "ok:") ∧ !(obs.startsWith "err:") then ["unparsable-observation"] else [])
+      (diff, if bad.isEmpty then "-" else ",".intercalate bad,
+       s!"hops={min hs.length 5} res={(obs.take 3).toString} stale={hops.contains '!'} clean={firstConflict.isNone}")
     | _, _ => ("bad-input", "-", "-")
+  | _ => ("bad-fields", "-", "-")
+
+/-- resolvers on a context that holds no identifier at all. -/
+def handleNoId (f : List String) : String × String × String :=
+  match f with
+  | [_, _, tid, tids, pwm] =>
+    let model := [showRes hexEncode (resolveTenantID []), showRes showList (resolveTenantIDs []),
+      showRes (fun (p : Bytes × Bytes) => hexEncode p.1 ++ "/" ++ hexEncode p.2) (resolveWithMetadata [])]
+    let diff := if model == [tid, tids, pwm] then "-" else "model=" ++ " ".intercalate model
+    -- judge: a request without an identifier is rejected, never given a default tenant
+    let bad := (if tid.startsWith "ok:" then ["default-tenant-invented"] else []) ++
+      (if tids.startsWith "ok:" then ["default-tenants-invented"] else []) ++
+      (if pwm.startsWith "ok:" then ["default-tenant-invented-with-metadata"] else [])
+    (diff, if bad.isEmpty then "-" else ",".intercalate bad, "noid")
   | _ => ("bad-fields", "-", "-")
 
 def handle (cmd : String) (f : List String) : String × String × String :=
   if cmd == "C20.id" then handleId f
   else if cmd == "C20.chain" then handleChain f
+  else if cmd == "C20.noid" then handleNoId f
   else ("unknown-cmd", "-", "-")
 
 end OracleC20
